@@ -90,9 +90,11 @@ class World(object):
         self.short_i = 0
         self.on_read = None        # optional callable(fd, data) after every CUT read
         self.short_fd = None       # short writes apply to this descriptor only
+        if max(self.costs) > 20:
+            self.faults['slow_syscalls'] = 1      # a slow or descheduled machine: 0.05..5 ms per system call
+        self.cost_total = 0        # virtual time charged for the system calls themselves (not for waiting inside them)
         # EINTR plan: [[n, delay_us], ...]: the n-th select/poll of the code under test that really has to wait is
         # interrupted by a signal `delay_us` after it started (pre-PEP-475 semantics: InterruptedError reaches the caller)
-        self.cost_total = 0        # virtual time charged for the system calls themselves (not for waiting inside them)
         self.eintr_plan = {int(n): int(d) for n, d in (scenario.get('eintr') or [])}
         self.wait_calls = 0
 
